@@ -420,3 +420,47 @@ func VerifC06_Wide() {
 	out = t.request(verifPathCmd(0x1231, "/w"))
 	verifrt.Assert(len(out) == 8 && int64(verifGet64(out)) == total, "wide.dirsize")
 }
+
+// Both listing commands on ONE opened directory: k entries are fetched one by one, then the rest is listed in bulk.
+// Every live entry is reported exactly once by the two together, and the enumeration is at its end afterwards.
+func VerifC06_Interleave() {
+	t := verifNewTree(false)
+	verifrt.Assert(t.openDir("/d") == 0, "interleave.opendir")
+	live := []string{"f1", "ln", "sub"}
+	seen := make([]bool, len(live))
+	mark := func(name string) bool {
+		for i, n := range live {
+			if n == name && !seen[i] {
+				seen[i] = true
+				return true
+			}
+		}
+		return false
+	}
+	k := 1 + verifrt.Choice("single-reads", 2)
+	v2 := verifrt.Bool("v2")
+	op, hdr := uint16(0x122b), 11
+	if v2 {
+		op, hdr = 0x122f, 35
+	}
+	for i := 0; i < k; i++ {
+		out := t.request(verifReadCmd(op, 0, 0))
+		verifrt.Assert(len(out) > hdr && mark(string(out[hdr:])), "interleave.single-entry")
+	}
+	out := t.request(verifReadCmd(0x1232, 0, 0))
+	rest := len(live) - k
+	verifrt.Assert(len(out) == 8+529*rest && int(verifGet64(out)) == rest, "interleave.bulk-lists-the-rest")
+	if len(out) != 8+529*rest {
+		return
+	}
+	for i := 0; i < rest; i++ {
+		rec := out[8+529*i:]
+		n := 0
+		for n < 512 && rec[17+n] != 0 {
+			n++
+		}
+		verifrt.Assert(mark(string(rec[17:17+n])), "interleave.bulk-entry-new")
+	}
+	out = t.request(verifReadCmd(op, 0, 0))
+	verifrt.Assert(len(out) == hdr && int64(verifGet64(out)) == -1, "interleave.end-marker-after-bulk")
+}
